@@ -373,6 +373,17 @@ def refusal_case(ctx, index, rng: random.Random):
         bad = list(e)
         bad.insert(1, bad[1])
         arr = np.array(bad)
+    if rng.random() < 0.3 and arr.ndim <= 2 and arr.size and arr.shape[-1] != 3:
+        # the same malformed specification as an integer / unsigned integer array (differences must not wrap around)
+        lo = float(np.min(arr))
+        scale_i = 10.0 / max(1e-12, float(np.max(arr)) - lo)
+        ints = np.round((arr - lo) * scale_i)
+        cand = ints.astype(rng.choice([np.uint8, np.uint16, np.uint32, np.uint64, np.int32, np.int8]))
+        chk = cand.astype(float)
+        bad_still = (chk.ndim == 1 and not np.all(np.diff(chk) > 0)) or (chk.ndim == 2 and (np.any(chk[:, 0] >= chk[:, 1]) or np.any(chk[1:, 0] < chk[:-1, 1])))
+        if bad_still:
+            arr = cand
+            kind = kind + "/int"
     how = rng.choice(["h1", "StaticBinning", "NumpyBinning", "static_binning", "as_binning", "Histogram1D"])
     if how == "NumpyBinning" and arr.ndim != 1:
         how = "StaticBinning"
@@ -406,8 +417,35 @@ def classes_case(ctx, index, rng: random.Random):
     from physt import binnings
 
     rec = ctx.rec
-    kind = rng.choice(["static", "static_gapped", "numpy", "fixed", "fixed_adaptive", "exponential"])
+    kind = rng.choice(["static", "static_gapped", "numpy", "fixed", "fixed_adaptive", "exponential", "fixed_empty"])
     closed = rng.random() < 0.5
+    if kind == "fixed_empty":
+        # an empty adaptive fixed-width binning (aligned or not, shifted or not) and its copy must react identically to the same values
+        rec.mon("C07.audit")
+        w = rng.choice(gen.WIDTH_POOL)
+        kw = {"bin_width": w, "adaptive": True}
+        if rng.random() < 0.5:
+            kw["align"] = False
+        elif rng.random() < 0.4:
+            kw["bin_shift"] = round(w * rng.choice([0.5, 0.25]), 12)
+        try:
+            a, b_ = binnings.FixedWidthBinning(**kw), binnings.FixedWidthBinning(**kw)
+            if rng.random() < 0.5:
+                _ = a.bins
+            c = a.copy()
+            vals = [rng.uniform(-50, 50) * w for _ in range(rng.randint(1, 3))]
+            for v in vals:
+                c.force_bin_existence(v)
+                b_.force_bin_existence(v)
+            with attach.quiet():
+                if not np.array_equal(np.asarray(c.bins), np.asarray(b_.bins)) or not (c == b_):
+                    rec.fail(monitor="C07.audit", op="class/fixed_empty", symptom="the copy of an empty adaptive binning reacts differently to the same values than its source",
+                             diff=["copy"], detail={"kw": {k: v for k, v in kw.items()}, "values": vals, "copy": np.asarray(c.bins)[:3], "source": np.asarray(b_.bins)[:3]})
+                mb.audit_binning(rec, c, op="class/fixed_empty", detail={"kw": str(kw)})
+        except Exception as e:
+            rec.fail(monitor="C07.audit", op="class/fixed_empty", symptom=f"empty adaptive binning raised {type(e).__name__}", diff=["raised"], detail={"error": str(e)[:160]})
+        rec.case(["fixed_empty", str(kw)], True, cls="class/fixed_empty")
+        return
     try:
         if kind == "static":
             b = binnings.StaticBinning(np.array(gen.pairs_from_edges(gen.edges(rng, rng.randint(1, 10)))), includes_right_edge=closed)
